@@ -20,6 +20,7 @@ type Import struct {
 	Package *Package // resolved imported package
 
 	Resolved bool
+	Used     bool // used by at least one type in the file
 }
 
 func newImport(file *File, pimp *syntax.Import) (*Import, error) {
